@@ -94,6 +94,17 @@ def check_tiling(ctx, fi, rule='R-TILE/window'):
                 inner = getattr(inner, '_parent', None)
             if shadow:
                 continue
+            # `base + a` as the *start* of a slice is an offset into
+            # another array, not the end of a window
+            up = getattr(e, '_parent', None)
+            child = e
+            is_start = False
+            while up is not None and not isinstance(up, ast.stmt):
+                if isinstance(up, ast.Slice) and up.lower is child:
+                    is_start = True
+                child, up = up, getattr(up, '_parent', None)
+            if is_start:
+                continue
             ns = [x for x in cfg.node_of_expr(e) if x.id in rd.live]
             if not ns:
                 continue
@@ -239,4 +250,134 @@ def check_whole_axis(ctx, fi, rule='R-TILE/whole-axis'):
                  f'`{unparse(loop.iter)[:60]}` counts only the whole '
                  f'windows ({fmt_term(t)[:60]}): when the length is not a '
                  'multiple of the window the remainder is never visited')
+    return n
+
+
+def check_buffer_windows(ctx, fi, rule='R-TILE/buffer-window'):
+    """`h.read_direct(buf, source_sel=s_[a:b], dest_sel=s_[0:b-a])` fills
+    the first b-a entries of a buffer that is re-used from window to
+    window.  What follows may look at `buf[:b-a]` only: the rest of the
+    buffer still holds the previous window, and for a last window shorter
+    than the buffer those stale entries are processed a second time."""
+    n = 0
+    for c in ast.walk(fi.node):
+        if not (isinstance(c, ast.Call) and isinstance(
+                c.func, ast.Attribute) and c.func.attr == 'read_direct'
+                and c.args and isinstance(c.args[0], ast.Name)):
+            continue
+        dest = [k.value for k in c.keywords if k.arg == 'dest_sel']
+        if len(c.args) > 2:
+            dest = [c.args[2]]
+        if not dest:
+            continue
+        d = dest[0]
+        # np.s_[lo:hi]
+        upper = None
+        if isinstance(d, ast.Subscript) and isinstance(d.slice, ast.Slice):
+            upper = d.slice.upper
+        if upper is None:
+            continue
+        buf = c.args[0].id
+        loop = getattr(c, '_parent', None)
+        while loop is not None and not isinstance(
+                loop, (ast.For, ast.While)):
+            loop = getattr(loop, '_parent', None)
+        scope = loop if loop is not None else fi.node
+        for x in ast.walk(scope):
+            if not (isinstance(x, ast.Name) and x.id == buf
+                    and isinstance(x.ctx, ast.Load)):
+                continue
+            par = getattr(x, '_parent', None)
+            if par is c:
+                continue
+            n += 1
+            ok = False
+            if isinstance(par, ast.Subscript) and par.value is x:
+                sl = par.slice
+                first = sl.elts[0] if isinstance(sl, ast.Tuple) and sl.elts \
+                    else sl
+                if isinstance(first, ast.Slice) and first.upper is not None \
+                        and unparse(first.upper) == unparse(upper) and (
+                            first.lower is None or unparse(first.lower)
+                            == '0'):
+                    ok = True
+            ctx.touch(fi)
+            ctx.ob(rule, f'{fi.qual}:{buf}#{n - 1}', fi.loc(par or x), ok,
+                   'only the part of the buffer that was just filled is '
+                   'used' if ok else
+                   f'`{buf}` is used whole after a read that filled only '
+                   f'its first `{unparse(upper)}` entries: for a window '
+                   'shorter than the buffer the entries of the previous '
+                   'window are processed again')
+    return n
+
+
+def check_store_advances(ctx, fi, rule='R-CURSOR/store-advances'):
+    """inside a loop, a slice store `dst[a:b] = src[...]` whose source
+    changes from turn to turn must not start at a position that stays the
+    same throughout the loop: every turn then overwrites the first one,
+    and the rest of the destination is never written.  (The start has to
+    mention the loop variable or something that is assigned inside the
+    loop -- a cursor that is advanced there.)"""
+    n = 0
+    for st in ast.walk(fi.node):
+        if not (isinstance(st, ast.Assign) and len(st.targets) == 1
+                and isinstance(st.targets[0], ast.Subscript)):
+            continue
+        tg = st.targets[0]
+        sl = tg.slice
+        first = sl.elts[0] if isinstance(sl, ast.Tuple) and sl.elts else sl
+        if not (isinstance(first, ast.Slice) and first.lower is not None):
+            continue
+        loop = getattr(st, '_parent', None)
+        while loop is not None and not isinstance(
+                loop, (ast.For, ast.While)):
+            if isinstance(loop, (ast.FunctionDef, ast.AsyncFunctionDef)):
+                loop = None
+                break
+            loop = getattr(loop, '_parent', None)
+        if loop is None:
+            continue
+        varying = set()
+        if isinstance(loop, ast.For):
+            varying |= {x.id for x in ast.walk(loop.target)
+                        if isinstance(x, ast.Name)}
+        for x in ast.walk(loop):
+            if isinstance(x, ast.Assign):
+                for t in x.targets:
+                    varying |= {y.id for y in ast.walk(t)
+                                if isinstance(y, ast.Name)
+                                and isinstance(y.ctx, ast.Store)}
+            elif isinstance(x, ast.AugAssign) and isinstance(
+                    x.target, ast.Name):
+                varying.add(x.target.id)
+            elif isinstance(x, (ast.For, ast.comprehension)):
+                varying |= {y.id for y in ast.walk(x.target)
+                            if isinstance(y, ast.Name)}
+            elif isinstance(x, ast.withitem) and x.optional_vars is not None:
+                varying |= {y.id for y in ast.walk(x.optional_vars)
+                            if isinstance(y, ast.Name)}
+        parts = sl.elts if isinstance(sl, ast.Tuple) else [sl]
+        start_names = set()
+        for part in parts:
+            if isinstance(part, ast.Slice) and part.lower is not None:
+                start_names |= {x.id for x in ast.walk(part.lower)
+                                if isinstance(x, ast.Name)}
+            elif not isinstance(part, ast.Slice):
+                start_names |= {x.id for x in ast.walk(part)
+                                if isinstance(x, ast.Name)}
+        src_names = {x.id for x in ast.walk(st.value)
+                     if isinstance(x, ast.Name)}
+        if not (src_names & varying):
+            continue            # the same data every turn: nothing to lose
+        n += 1
+        ok = bool(start_names & varying)
+        ctx.touch(fi)
+        ctx.ob(rule, f'{fi.qual}:store#{n - 1}', fi.loc(st), ok,
+               'the destination window moves with the loop' if ok else
+               f'`{unparse(st)[:70]}`: the destination starts at '
+               f'`{unparse(first.lower)}`, which does not change inside '
+               'the loop, while the data stored does: every turn '
+               'overwrites the same place and what lies beyond it is never '
+               'written')
     return n
